@@ -21,6 +21,9 @@ the `i64` range.
   for every exchange (any history of measurements before) exchange_delivers
   computing it never panics                               never_panics
   one-way sources: offset = remote − local                oneway_offset
+  (the GPSd/SOCK composition remote = local − from_seconds(sample offset) is exercised end to end by the
+   harness op `sock` with the implementation-only oracle clauses oneway_sock_offset / oneway_sock_sign; the
+   accuracy of from_seconds itself is C32: from_seconds_within_second, from_seconds_error_bound)
 -/
 import NtpVerif.Proofs.Time
 
